@@ -6,7 +6,7 @@ import os
 import posixpath
 import tempfile
 
-from . import common
+from . import c20_exec, common
 from .common import coq_bool, coq_option, coq_str
 
 PID = "C20"
@@ -18,12 +18,17 @@ RULE = ("E1: generated strings (components a,b,c,ab,x.txt,'..','.','', '...', e-
         "workdir, path) tuples through the real translate / translate_back / get_affixes / apply_affixes / "
         "api._keep_affixes with os.environ and os.getcwd patched inside the harness process (environment variables "
         "set, or unset so that the defaults of path.py are used) versus the Gallina generated from the same source; "
-        "the ROOT / HERE expressions of Executor._run_command evaluated from their AST versus exec_ROOT / exec_HERE; "
+        "the ROOT / HERE that the REAL Executor._run_command hands to a recording launch_command (harness/c20_exec.py: "
+        "real Executor instance, stub step/db/reporter/workflow, os.getcwd = root; no process started) versus exec_ROOT "
+        "/ exec_HERE and versus the translated expressions evaluated from their text; "
         "translate in a real temporary tree (chdir into the step directory, os.path.realpath of the original and of "
         "root/translated). Oracle: on the implementation alone, lexical resolution of the translated path from the "
         "root equals that of the original from root/HERE/workdir; result normalised; translate_back likewise; "
         "round trip; fixpoint; affix preservation with the raising cases predicted; ROOT/HERE resolve to root and "
-        "step directory. A case is non-trivial when the path or the working directory contains '..', '.', a "
+        "step directory, both for the translated expressions and for the values the real _run_command produced, whose "
+        "recorded cwd must be the step directory ((root, stored workdir) pairs: fixed list with nested, '.', sibling "
+        "'../shared', '../../x/y', absolute '/egg', the translate_external layout, root '/'; generated 10% '.', 25% "
+        "nested, 30% leading '..', 15% absolute, 20% normalised random). A case is non-trivial when the path or the working directory contains '..', '.', a "
         "repeated or trailing slash or a leading './', or HERE is not '.'; distinct by the full tuple.")
 TRUSTED_BASE = [
     "Coq 8.16.1 kernel (vm_compute in Examples, in the two refutation witnesses and in the correspondence evaluation)",
@@ -34,6 +39,8 @@ TRUSTED_BASE = [
     "lib/PosixPath.v definitions of split/join/normpath/abspath/relpath (validated against CPython's posixpath and "
     "the installed `path` library by E1 on every run; not proved equal to the C implementation)",
     "harness/p_c20.py (Gallina literal printer, patching of os.environ/os.getcwd, case generators)",
+    "harness/c20_exec.py (stubs around the real Executor._run_command; launch_command replaced by a recorder; "
+    "it checks on every case that Path.cwd() honours the patched os.getcwd)",
     "no extraction is used: the model is evaluated inside Coq by vm_compute",
 ]
 ASSUMPTIONS = [
@@ -281,18 +288,34 @@ def correspondence(ctx):
         kn = call_raising(su_api._keep_affixes, msgs, p, Path.normpath)
         add("keep_normpath", f"res_eqb (keep_normpath {coq_str(p)}) {coq_res(kn)}", (p, kn), nontrivial(p))
 
-    # (d) ROOT / HERE expressions of Executor._run_command, evaluated from the source text
+    # (d) ROOT / HERE of Executor._run_command: what the REAL function hands to launch_command (c20_exec),
+    # versus the generated exec_ROOT / exec_HERE, versus the translated expressions evaluated from their text
     exprs = facts["exec_exprs"]
-    for _ in range(ctx.scale(150, 1500)):
-        root = rand_root(rng)
-        if root.startswith("//"):
-            root = root[1:]
-        wd = posixpath.normpath(rand_workdir(rng)) if rng.random() < 0.8 else rand_workdir(rng)
-        with patched(root, None, None):
-            vals = {k: eval(compile(exprs[k], "<_run_command>", "eval"), {"Path": Path, "str": str, "workdir": wd})  # noqa: S307
-                    for k in ("ROOT", "HERE")}
-        add("exec_ROOT", f"str_eqb (exec_ROOT {coq_str(root)} [] {coq_str(wd)}) {coq_str(vals['ROOT'])}", (root, wd), wd != ".")
-        add("exec_HERE", f"str_eqb (exec_HERE {coq_str(root)} [] {coq_str(wd)}) {coq_str(vals['HERE'])}", (root, wd), wd != ".")
+    tie_bad = None
+    with c20_exec.RealExec() as rx:
+        for _ in range(ctx.scale(150, 1500)):
+            root = rand_root(rng)
+            if root.startswith("//"):
+                root = root[1:]
+            wd = posixpath.normpath(rand_workdir(rng)) if rng.random() < 0.8 else rand_workdir(rng)
+            vals = eval_exec_exprs(exprs, root, wd)
+            try:
+                real = rx.run(root, wd)
+            except c20_exec.RealExecError as e:
+                real = {"ROOT": None, "HERE": None, "error": str(e)}
+            if tie_bad is None and any(real[k] != vals[k] for k in ("ROOT", "HERE")):
+                tie_bad = (root, wd, vals, real)
+            for k in ("ROOT", "HERE"):
+                got = real[k] if real[k] is not None else "<not produced>"
+                add("exec_" + k, f"str_eqb (exec_{k} {coq_str(root)} [] {coq_str(wd)}) {coq_str(got)}", (root, wd), wd != ".")
+        ctx.stats["exec_real_mode"] = rx.mode
+    if tie_bad is not None:
+        root, wd, vals, real = tie_bad
+        ctx.add_failure("correspondence", "E1:exec-real-vs-translated", "E1:exec-real-vs-translated",
+                        f"root {root!r} workdir {wd!r}: the real Executor._run_command produced ROOT={real['ROOT']!r} "
+                        f"HERE={real['HERE']!r}{' (' + real['error'] + ')' if 'error' in real else ''}, the translated "
+                        f"expressions {exprs!r} give ROOT={vals['ROOT']!r} HERE={vals['HERE']!r}",
+                        witness={"root": root, "workdir": wd})
 
     for d in descr[::max(1, len(descr) // 5)][:5]:
         ctx.sample({"E1": d})
@@ -497,20 +520,113 @@ def check_affix_contract(q, l, t, facts):
     return out
 
 
-def check_exec(root, wd, facts):
+def eval_exec_exprs(exprs, root, wd):
+    """The translated env["ROOT"] / env["HERE"] expressions evaluated from their source text."""
     from path import Path
-    out = []
-    exprs = facts["exec_exprs"]
     with patched(root, None, None):
-        vals = {k: eval(compile(exprs[k], "<_run_command>", "eval"), {"Path": Path, "str": str, "workdir": wd})  # noqa: S307
+        return {k: eval(compile(exprs[k], "<_run_command>", "eval"), {"Path": Path, "str": str, "workdir": wd})  # noqa: S307
                 for k in ("ROOT", "HERE")}
+
+
+def check_exec(root, wd, facts, real=None):
+    """ROOT / HERE specification on the TRANSLATED expressions (only when the translator succeeded).
+
+    When the translator failed there are no translated expressions: nothing is pretended about the source;
+    the values the real function produced (`real`, from check_exec_real) are handed on for the end-to-end
+    clause and the specification is checked on them by check_exec_real alone.
+    """
+    out = []
+    exprs = facts.get("exec_exprs")
+    if not exprs:
+        vals = None if real is None or real.get("ROOT") is None or real.get("HERE") is None else {
+            "ROOT": real["ROOT"], "HERE": real["HERE"]}
+        return out, vals
+    vals = eval_exec_exprs(exprs, root, wd)
     step_dir = lex(root, wd)
     if lex(step_dir, vals["ROOT"]) != root:
         out.append(("oracle:exec-env:ROOT", f"workdir {wd!r}: ROOT={vals['ROOT']!r} leads from {step_dir!r} to {lex(step_dir, vals['ROOT'])!r}, not {root!r}"))
     if lex(root, vals["HERE"]) != step_dir:
         out.append(("oracle:exec-env:HERE", f"workdir {wd!r}: HERE={vals['HERE']!r} leads from {root!r} to {lex(root, vals['HERE'])!r}, not {step_dir!r}"))
-    # end to end: the step, in the environment it is given, calls translate(p)
     return out, vals
+
+
+def check_exec_real(rx, root, wd, facts):
+    """The specification on what the REAL Executor._run_command hands to launch_command for (root, wd).
+
+    Returns (list of (signature, detail), produced) where produced = {'ROOT', 'HERE', 'cwd', ...} or
+    {'error': ...} when the real function raised.
+    """
+    out = []
+    step_dir = lex(root, wd)
+    try:
+        real = rx.run(root, wd)
+    except c20_exec.RealExecError as e:
+        out.append(("oracle:exec-real:raised", f"root {root!r} workdir {wd!r}: {e}"))
+        return out, {"error": str(e)}
+    produced = f"(real _run_command: ROOT={real['ROOT']!r} HERE={real['HERE']!r} cwd={real['cwd']!r})"
+    for k in ("ROOT", "HERE"):
+        if real[k] is None or not real[k + "_is_str"]:
+            out.append((f"oracle:exec-real:{k}", f"root {root!r} workdir {wd!r}: env[{k!r}] is not a string {produced}"))
+    if real["ROOT"] is not None and lex(step_dir, real["ROOT"]) != root:
+        out.append(("oracle:exec-real:ROOT",
+                    f"root {root!r} workdir {wd!r}: the step runs in {step_dir!r} and is given ROOT={real['ROOT']!r}, which "
+                    f"leads to {lex(step_dir, real['ROOT'])!r}, not to the root {produced}"))
+    if real["HERE"] is not None and lex(root, real["HERE"]) != step_dir:
+        out.append(("oracle:exec-real:HERE",
+                    f"root {root!r} workdir {wd!r}: HERE={real['HERE']!r} leads from the root to {lex(root, real['HERE'])!r}, "
+                    f"the step runs in {step_dir!r} {produced}"))
+    if real["cwd"] is None or lex(root, real["cwd"]) != step_dir:
+        out.append(("oracle:exec-real:cwd",
+                    f"root {root!r} workdir {wd!r}: the command is launched with cwd={real['cwd']!r}, not in {step_dir!r} {produced}"))
+    exprs = facts.get("exec_exprs")
+    if exprs:
+        vals = eval_exec_exprs(exprs, root, wd)
+        if any(vals[k] != real[k] for k in ("ROOT", "HERE")):
+            out.append(("E1:exec-real-vs-translated",
+                        f"root {root!r} workdir {wd!r}: translated expressions {exprs!r} give ROOT={vals['ROOT']!r} "
+                        f"HERE={vals['HERE']!r} {produced}"))
+    return out, real
+
+
+# (root, stored workdir): inside the root, the root itself, outside it (sibling, two levels up, absolute),
+# the layout of tests/examples/translate_external (plan in projects/work, step in ../../common), the
+# witness of seeded/C20-r2-executor-root-env-from-here-depth, and the file-system root corners.
+EXEC_FIXED = [
+    ("/r/proj", "."), ("/r/proj", "sub"), ("/r/proj", "sub/deep"), ("/r/proj", "a/b/c"),
+    ("/r/proj", "../shared"), ("/r/proj", "../../x/y"), ("/r/proj", ".."), ("/r/proj", "../.."),
+    ("/r/proj", "../proj"), ("/r/proj", "../proj/a"), ("/r/proj", "/egg"), ("/r/proj", "/"), ("/r/proj", "/r"),
+    ("/r/proj", "/r/proj/a"), ("/x/translate_external/projects/work", "../../common"),
+    ("/x/translate_external/projects/work", "../public"), ("/r", "../.."), ("/", "a"), ("/", "."), ("/", "a/b"),
+]
+
+
+def rand_exec_case(rng):
+    """(root, workdir as api.step stores it: normalised, relative to the root or absolute)."""
+    root = rand_root(rng)
+    if root.startswith("//"):
+        root = root[1:]
+    r = rng.random()
+    if r < 0.1:
+        wd = "."
+    elif r < 0.35:   # nested inside the root
+        wd = "/".join(rng.choice(NAMES) for _ in range(rng.randint(1, 3)))
+    elif r < 0.65:   # outside: sibling, cousin, ancestors
+        wd = "/".join([".."] * rng.randint(1, 3) + [rng.choice(NAMES) for _ in range(rng.randint(0, 2))])
+    elif r < 0.8:    # absolute
+        wd = posixpath.normpath("/" + "/".join(rng.choice(NAMES) for _ in range(rng.randint(0, 3))))
+        if wd.startswith("//"):
+            wd = wd[1:]
+    else:
+        wd = posixpath.normpath(rand_workdir(rng))
+    return root, wd
+
+
+def exec_class(root, wd):
+    if wd == ".":
+        return "root"
+    if wd.startswith("/"):
+        return "absolute"
+    return "outside" if wd.split("/")[0] == ".." else "inside"
 
 
 def run_oracle(ctx, n):
@@ -536,53 +652,67 @@ def run_oracle(ctx, n):
         ctx.case(("oracle-affix", q, l, t), bool(l or t))
         for sig, detail in check_affix_contract(q, l, t, facts):
             found.setdefault(sig, (detail, {"apply_affixes": [q, l, t]}))
-    for _ in range(n // 3):
-        root = rand_root(rng)
-        if root.startswith("//"):
-            root = root[1:]
-        wd = posixpath.normpath(rand_workdir(rng))
-        ctx.case(("oracle-exec", root, wd), wd != ".")
-        res, vals = check_exec(root, wd, facts)
-        for sig, detail in res:
-            found.setdefault(sig, (detail, {"root": root, "workdir": wd}))
-        # end to end with the environment the executor builds
-        p = rand_path(rng)
-        if not res:
-            step_dir = lex(root, wd)
-            from stepup.core.path import translate
-            with patched(step_dir, root, vals["HERE"]):
-                tr = str(translate(p))
-            if lex(root, tr) != lex(step_dir, p):
-                found.setdefault("oracle:end-to-end", (
-                    f"step in {step_dir!r} (HERE={vals['HERE']!r}) means {lex(step_dir, p)!r} by {p!r}; director records {tr!r} = {lex(root, tr)!r}",
-                    {"root": root, "workdir": wd, "path": p}))
+    from stepup.core.path import translate
+    cases = list(EXEC_FIXED) + [rand_exec_case(rng) for _ in range(n // 3)]
+    with c20_exec.RealExec() as rx:
+        for root, wd in cases:
+            ctx.case(("oracle-exec", root, wd), wd != ".")
+            ctx.count("oracle_exec_" + exec_class(root, wd))
+            # the real Executor._run_command, executed with a recording launch_command
+            res_real, real = check_exec_real(rx, root, wd, facts)
+            for sig, detail in res_real:
+                found.setdefault(sig, (detail, {"root": root, "workdir": wd}))
+            # the translated expressions (absent when the translator failed closed)
+            res, vals = check_exec(root, wd, facts, real)
+            for sig, detail in res:
+                found.setdefault(sig, (detail, {"root": root, "workdir": wd}))
+            # end to end with the environment the executor builds
+            p = rand_path(rng)
+            if not res and not res_real and vals is not None:
+                step_dir = lex(root, wd)
+                with patched(step_dir, root, vals["HERE"]):
+                    tr = str(translate(p))
+                if lex(root, tr) != lex(step_dir, p):
+                    found.setdefault("oracle:end-to-end", (
+                        f"step in {step_dir!r} (HERE={vals['HERE']!r}) means {lex(step_dir, p)!r} by {p!r}; director records {tr!r} = {lex(root, tr)!r}",
+                        {"root": root, "workdir": wd, "path": p}))
+        ctx.stats["exec_real_mode"] = rx.mode
     return found
 
 
-def oracle(ctx):
+def ensure_facts(ctx, who):
     if not hasattr(ctx, "facts"):
         ctx.facts = _fallback_facts()
-        ctx.notes.append("oracle ran with built-in facts (raise messages, ROOT/HERE expressions) because the translator failed")
+        ctx.notes.append(f"{who} ran without translated facts because the translator failed: built-in raise messages of "
+                         "apply_affixes; ROOT/HERE are taken from the real Executor._run_command only (harness/c20_exec.py)")
+
+
+def oracle(ctx):
+    ensure_facts(ctx, "oracle")
     found = run_oracle(ctx, ctx.scale(1500, 20000))
     ctx.count("oracle_signatures", len(found))
     for sig, (detail, witness) in sorted(found.items()):
         ctx.add_failure("oracle", sig, sig, detail, witness=witness)
-    ctx.sample({"oracle": "translate/translate_back/affixes/ROOT-HERE checked by lexical resolution", "violated_clauses": sorted(found)})
+    ctx.sample({"oracle": "translate/translate_back/affixes/ROOT-HERE checked by lexical resolution; ROOT/HERE/cwd taken "
+                          "from the real Executor._run_command", "violated_clauses": sorted(found)})
 
 
 def _fallback_facts():
-    """Facts needed by the oracle when the translator failed closed: read what can still be read."""
+    """Facts needed by the oracle when the translator failed closed.
+
+    Only the raise messages of apply_affixes (used to tell the raise sites apart) are built in.  There are
+    deliberately NO ROOT/HERE expressions here: when the source could not be translated, the oracle uses what
+    the real Executor._run_command produces (check_exec_real), never a remembered copy of the old code.
+    """
     return {"functions": {"apply_affixes": {"raise_msgs": [
                 "Leading affix must be", "Path already has a leading slash", "Trailing affix must be",
                 "Path already has a trailing slash"]}},
-            "exec_exprs": {"ROOT": "str(Path.cwd().relpath(workdir))", "HERE": "str(Path(workdir).relpath())"}}
+            "exec_exprs": None}
 
 
 def search(ctx):
     """An obligation broke and nothing produced a witness: run the oracle much deeper."""
-    if not hasattr(ctx, "facts"):
-        ctx.facts = _fallback_facts()
-        ctx.notes.append("search ran with built-in facts (raise messages, ROOT/HERE expressions) because the translator failed")
+    ensure_facts(ctx, "search")
     found = run_oracle(ctx, 40000 if ctx.thorough() else 12000)
     for sig, (detail, witness) in sorted(found.items()):
         ctx.add_failure("oracle", sig, sig + ":search", detail, witness=witness)
@@ -590,8 +720,7 @@ def search(ctx):
 
 def replay(ctx, obj):
     w = obj["failure"].get("witness") or {}
-    if not hasattr(ctx, "facts"):
-        ctx.facts = _fallback_facts()
+    ensure_facts(ctx, "replay")
     print("replaying", w)
     if {"cwd", "root", "here", "workdir", "path"} <= set(w):
         for sig, detail in check_tuple(w["cwd"], w["root"], w["here"], w["workdir"], w["path"], ctx.facts):
@@ -599,10 +728,26 @@ def replay(ctx, obj):
     elif "apply_affixes" in w:
         for sig, detail in check_affix_contract(*w["apply_affixes"], ctx.facts):
             ctx.add_failure("oracle", sig, sig, detail, witness=w)
-    elif {"root", "workdir"} <= set(w) and "path" not in w:
-        res, _ = check_exec(w["root"], w["workdir"], ctx.facts)
-        for sig, detail in res:
+    elif {"root", "workdir"} <= set(w):
+        root, wd = w["root"], w["workdir"]
+        with c20_exec.RealExec() as rx:
+            res_real, real = check_exec_real(rx, root, wd, ctx.facts)
+            print(f"real Executor._run_command ({rx.mode}) for root={root!r} workdir={wd!r} (step directory "
+                  f"{lex(root, wd)!r}):", {k: real.get(k) for k in ("ROOT", "HERE", "cwd", "error") if k in real})
+        res, vals = check_exec(root, wd, ctx.facts, real)
+        if ctx.facts.get("exec_exprs"):
+            print("translated expressions:", ctx.facts["exec_exprs"], "->", vals)
+        for sig, detail in res_real + res:
             ctx.add_failure("oracle", sig, sig, detail, witness=w)
+        if "path" in w and vals is not None and not res and not res_real:
+            from stepup.core.path import translate
+            step_dir = lex(root, wd)
+            with patched(step_dir, root, vals["HERE"]):
+                tr = str(translate(w["path"]))
+            if lex(root, tr) != lex(step_dir, w["path"]):
+                ctx.add_failure("oracle", "oracle:end-to-end", "oracle:end-to-end",
+                                f"step in {step_dir!r} (HERE={vals['HERE']!r}) means {lex(step_dir, w['path'])!r} by "
+                                f"{w['path']!r}; director records {tr!r} = {lex(root, tr)!r}", witness=w)
     else:
         correspondence(ctx)
         oracle(ctx)
